@@ -204,19 +204,20 @@ class C14(EngineBase):
         st.stats["op." + op + ".inplace"] += 1
         st.stats["reach.inplace"] += 1
         self._compare_heap(st, before, step, skip_ids={id(target)}, what="in-place")
-        if twin is not None and twin_exc is None and S.kind_of(res) in "AFV":
+        if twin is not None and twin_exc is None and S.kind_of(expected) in "AFV":
+            # the statement is about the value found in place; what the call
+            # returns (self, by convention) is not part of it
             st.stats["reach.inplace_twin"] += 1
             s_in = S.snap(target)
             s_out = S.snap(expected)
-            if res is not target:
-                self.report(st, "inplace-returns-self", op,
-                            "in-place call returned a different object", ["in-place"])
             if s_in != s_out:
                 field = S.diff_field(s_out, s_in)
                 tags = ["in-place", field]
                 self.report(st, "inplace-equals-outofplace", op,
                             f"in-place differs from out-of-place in {field}: "
                             + str(S.describe_diff(s_out, s_in)), tags)
+        if S.kind_of(res) not in "AFV":
+            res = target
         ops.bind(step, heap, res)
         st.log.add("ok-inplace", [op, S.structure(res) if S.kind_of(res) in "AF" else S.kind_of(res)])
 
